@@ -395,3 +395,43 @@ func (g *Gen) extremeCase(i int) *Case {
 	}
 	return c
 }
+
+// dnestCase: an aggregation directly below the same aggregation (count of count, topk of topk,
+// ...), with the series dealt out to the partitions one by one so that the inner groups are split
+// across remote engines: the shape for which pushing the outer aggregation down as a whole is wrong.
+func (g *Gen) dnestCase(i int) *Case {
+	g.prof = "mixed"
+	g.maxSeries = 12
+	c := g.Case(i)
+	g.prof = "dnest"
+	c.ID = fmt.Sprintf("dnest-%d", i)
+	c.Profile = "dnest"
+	op := g.pick("count", "count", "count", "topk", "bottomk", "sum", "max", "min", "group")
+	innerGrp := g.pick(" by (a)", " by (b)", " by (c)", " by (a,b)", " without (a)", " without (b,c)", " by (a,c)")
+	sel := g.pick("m", "m", "m", `{__name__=~"m|n"}`, "last_over_time(m[60s])", "abs(m)", "n")
+	agg := func(grp, arg string) string {
+		if op == "topk" || op == "bottomk" {
+			return fmt.Sprintf("%s%s (%s, %s)", op, grp, g.pick("1", "2", "3"), arg)
+		}
+		return fmt.Sprintf("%s%s (%s)", op, grp, arg)
+	}
+	q := agg(g.grouping(), agg(innerGrp, sel))
+	switch g.r.Intn(5) {
+	case 0:
+		q = "1 + " + q
+	case 1:
+		q = "-" + q
+	case 2:
+		q = "abs(" + q + ")"
+	}
+	c.Query = q
+	c.Series = nil
+	g.dataset(c, extractRanges(c.Query), false)
+	np := 2 + g.r.Intn(3)
+	c.Parts = make([][]int, np)
+	perm := g.r.Perm(len(c.Series))
+	for k, s := range perm {
+		c.Parts[k%np] = append(c.Parts[k%np], s)
+	}
+	return c
+}
